@@ -165,7 +165,7 @@ func Run(c *core.Ctx) {
 	clear := c.Func(pkgCk, "", "ClearCheckpoint")
 	c.Func(pkgUtils, "", "ParseKeyspace")
 	if fetch != nil {
-		st.reader(fetch, load)
+		st.reader(fetch, 1)
 	}
 	if load != nil && fetch != nil {
 		st.loader(load, fetch, clear)
@@ -248,13 +248,16 @@ func (st *state) sender() {
 	}
 	info := fn.Pkg.TypesInfo
 	body := fn.Decl.Body
-	for _, call := range core.CallsAll(body, info, func(call *ast.CallExpr, callee types.Object) bool {
-		if callee == nil || callee.Name() != "Send" || len(call.Args) != 4 {
+	for _, raw := range core.CallsAll(body, info, func(call *ast.CallExpr, callee types.Object) bool {
+		k := sendArgs(c, info, call, callee)
+		if k < 0 || len(call.Args)-k != 4 {
 			return false
 		}
-		s, ok := core.StringConst(info, call.Args[0])
+		s, ok := core.StringConst(info, call.Args[k])
 		return ok && strings.EqualFold(s, "hset")
 	}) {
+		// the command and its arguments (the call itself, or what a forwarding helper hands to Send)
+		call := &ast.CallExpr{Fun: raw.Fun, Lparen: raw.Lparen, Rparen: raw.Rparen, Args: raw.Args[sendArgs(c, info, raw, core.Callee(info, raw)):]}
 		role := ""
 		val := ast.Unparen(call.Args[3])
 		switch {
@@ -293,6 +296,36 @@ func (st *state) sender() {
 			seen[f.String()] = r
 		}
 	}
+}
+
+// sendArgs returns the index of the command name among the arguments of a call that queues a
+// command on the target connection: 0 for <conn>.Send(cmd, args...), i for a same-package helper
+// h(..., cmd, args...) whose body forwards exactly `<conn>.Send(cmd, args...)`; -1 otherwise.
+func sendArgs(c *core.Ctx, info *types.Info, call *ast.CallExpr, callee types.Object) int {
+	f, ok := callee.(*types.Func)
+	if !ok {
+		return -1
+	}
+	if f.Name() == "Send" {
+		return 0
+	}
+	h := c.FnOf(f)
+	sig := f.Type().(*types.Signature)
+	if h == nil || h.Decl.Body == nil || h.Pkg.TypesInfo != info || !sig.Variadic() {
+		return -1
+	}
+	idx := -1
+	for _, inner := range core.CallsAll(h.Decl.Body, info, func(_ *ast.CallExpr, cal types.Object) bool { return cal != nil && cal.Name() == "Send" }) {
+		if len(inner.Args) != 2 || !inner.Ellipsis.IsValid() {
+			return -1
+		}
+		i, j := paramIndex(info, h, inner.Args[0]), paramIndex(info, h, inner.Args[1])
+		if i < 0 || j != sig.Params().Len()-1 || i != j-1 {
+			return -1
+		}
+		idx = i
+	}
+	return idx
 }
 
 func isSel(e ast.Expr, name string) bool {
@@ -362,7 +395,7 @@ func successReturns(info *types.Info, body *ast.BlockStmt) []*ast.ReturnStmt {
 // ---------------------------------------------------------------------------
 // R1 reader + R4 defaults: fetchCheckpoint
 
-func (st *state) reader(fn, load *core.Fn) {
+func (st *state) reader(fn *core.Fn, depth int) {
 	c := st.c
 	info := fn.Pkg.TypesInfo
 	body := fn.Decl.Body
@@ -384,6 +417,22 @@ func (st *state) reader(fn, load *core.Fn) {
 		scan = r
 	}
 	if scan == nil {
+		// the reply is scanned by a helper of the same package: `return parse(sourceAddr, reply)`
+		var helper *core.Fn
+		core.Inspect(body, func(n ast.Node) bool {
+			if r, ok := n.(*ast.ReturnStmt); ok && len(r.Results) == 1 {
+				if call, ok := ast.Unparen(r.Results[0]).(*ast.CallExpr); ok {
+					if h := c.FnOf(core.CalleeFunc(info, call)); h != nil && h.Decl.Body != nil && h.Pkg.TypesInfo == info && h.Obj != fn.Obj {
+						helper = h
+					}
+				}
+			}
+			return true
+		})
+		if helper != nil && depth > 0 {
+			st.reader(helper, depth-1)
+			return
+		}
 		c.Undecidedf("R1.reader", "fetchCheckpoint/return", fn.Decl.Pos(), "no `return runId, offset, version, nil` found")
 		return
 	}
@@ -631,21 +680,82 @@ func (st *state) reader(fn, load *core.Fn) {
 		}
 	}
 	// the source address handed down is the syncer's source
-	if srcParam >= 0 && load != nil {
-		linfo := load.Pkg.TypesInfo
-		okChain, pos := false, load.Decl.Pos()
-		for _, call := range core.Calls(load.Decl.Body, linfo, func(_ *ast.CallExpr, callee types.Object) bool { return callee == types.Object(fn.Obj) }) {
-			pos = call.Pos()
-			if j := paramIndex(linfo, load, call.Args[srcParam]); j >= 0 {
-				if sync := c.Func(pkgSync, "DbSyncer", "Sync"); sync != nil {
-					for _, lc := range core.CallsAll(sync.Decl.Body, sync.Pkg.TypesInfo, func(_ *ast.CallExpr, callee types.Object) bool { return callee == types.Object(load.Obj) }) {
-						okChain = j < len(lc.Args) && isSourceField(sync.Pkg.TypesInfo, lc.Args[j])
+	if srcParam >= 0 {
+		ok, known, pos := sourceChain(c, fn, srcParam, 4)
+		if !known {
+			c.Undecidedf("R1.reader", "fetchCheckpoint/own-source", pos, "cannot follow the source address of fetchCheckpoint back to the syncer")
+		} else {
+			c.Check("R1.reader", "fetchCheckpoint/own-source", pos, ok, "the address fetchCheckpoint builds its field names from must be the syncer's own source (ds.node.Source, the address the sender uses): otherwise another source's checkpoint is resumed")
+		}
+	}
+}
+
+// sourceChain follows parameter idx of fn through all its callers in the checkpoint and dbSync
+// packages: ok when every chain ends in the Source field of a slot.SyncNode; known=false when a
+// chain cannot be followed (no caller found, argument neither a parameter nor a field).
+func sourceChain(c *core.Ctx, fn *core.Fn, idx int, depth int) (ok, known bool, pos token.Pos) {
+	pos = fn.Decl.Pos()
+	if depth == 0 {
+		return false, false, pos
+	}
+	ok, known = true, true
+	sites := 0
+	for _, pk := range c.Pkgs {
+		if pk.ID != pk.PkgPath || pk.TypesInfo == nil || !(strings.HasSuffix(pk.PkgPath, "/"+pkgCk) || strings.HasSuffix(pk.PkgPath, "/"+pkgSync)) {
+			continue
+		}
+		info := pk.TypesInfo
+		for _, file := range pk.Syntax {
+			for _, d := range file.Decls {
+				fd, isFn := d.(*ast.FuncDecl)
+				if !isFn || fd.Body == nil {
+					continue
+				}
+				for _, call := range core.CallsAll(fd.Body, info, func(_ *ast.CallExpr, callee types.Object) bool { return callee == types.Object(fn.Obj) }) {
+					sites++
+					if idx >= len(call.Args) {
+						return false, false, call.Pos()
 					}
+					arg := tt.Resolve(info, fd.Body, call.Args[idx], 2)
+					if isSourceField(info, arg) {
+						continue
+					}
+					encl := c.FnOf(asFunc(info.Defs[fd.Name]))
+					if j := -1; encl != nil {
+						if j = paramIndex(info, encl, arg); j >= 0 {
+							o, k, p := sourceChain(c, encl, j, depth-1)
+							if !k {
+								return false, false, p
+							}
+							if !o {
+								ok, pos = false, p
+							}
+							continue
+						}
+					}
+					if f := core.FieldOf(info, arg); f != nil && f.Pkg() != nil && strings.HasSuffix(f.Pkg().Path(), "/dbSync/slot") || isConstString(info, arg) {
+						ok, pos = false, call.Pos() // some other field / a constant: recognisably not the syncer's source
+						continue
+					}
+					return false, false, call.Pos()
 				}
 			}
 		}
-		c.Check("R1.reader", "fetchCheckpoint/own-source", pos, okChain, "the address fetchCheckpoint builds its field names from must be the syncer's own source (ds.node.Source, the address the sender uses): otherwise another source's checkpoint is resumed")
 	}
+	if sites == 0 {
+		return false, false, pos
+	}
+	return ok, known, pos
+}
+
+func asFunc(o types.Object) *types.Func {
+	f, _ := o.(*types.Func)
+	return f
+}
+
+func isConstString(info *types.Info, e ast.Expr) bool {
+	_, ok := core.StringConst(info, e)
+	return ok
 }
 
 func orDash(f form) string {
